@@ -225,22 +225,9 @@ pub fn try_cleanup_stale_authority_files(
         return Ok(false);
     }
 
-    let lock_tombstone = lock_path.with_file_name(format!(
-        "{}.stale-{}-{}-{}",
-        lock_path.file_name().unwrap_or_default().to_string_lossy(),
-        expected_pid,
-        // Keep started_at in the tombstone name for debugging even when it doesn't match.
-        expected_started_at_ms,
-        now_ms()
-    ));
-    #[cfg(rip_verif)]
-    rip_kernel::verif::point("auth.stale.rename");
-    match fs::rename(&lock_path, &lock_tombstone) {
-        Ok(()) => {}
-        Err(err) if err.kind() == std::io::ErrorKind::NotFound => return Ok(false),
-        Err(err) => return Err(format!("rename stale lock failed: {err}")),
-    }
-
+    // The meta file goes first, while the stale lock still keeps every contender out: once the
+    // lock is gone the next authority may already have written its own meta.json, and a check
+    // made before that would rename the live file away.
     #[cfg(rip_verif)]
     rip_kernel::verif::point("auth.stale.meta");
     if let Ok(Some(meta)) = read_authority_meta(&data_dir) {
@@ -256,6 +243,22 @@ pub fn try_cleanup_stale_authority_files(
                 let _ = fs::remove_file(meta_tombstone);
             }
         }
+    }
+
+    let lock_tombstone = lock_path.with_file_name(format!(
+        "{}.stale-{}-{}-{}",
+        lock_path.file_name().unwrap_or_default().to_string_lossy(),
+        expected_pid,
+        // Keep started_at in the tombstone name for debugging even when it doesn't match.
+        expected_started_at_ms,
+        now_ms()
+    ));
+    #[cfg(rip_verif)]
+    rip_kernel::verif::point("auth.stale.rename");
+    match fs::rename(&lock_path, &lock_tombstone) {
+        Ok(()) => {}
+        Err(err) if err.kind() == std::io::ErrorKind::NotFound => return Ok(false),
+        Err(err) => return Err(format!("rename stale lock failed: {err}")),
     }
 
     let _ = fs::remove_file(lock_tombstone);
